@@ -13,7 +13,7 @@ import operator
 from vlib.mc import enum as E
 
 PROPERTY = 'C18'
-LEVEL = 'exploration'
+LEVEL = 'model_checking'
 ENGINE = 'C'
 TECHNIQUE = ('stateless bounded model checking: complete enumeration of operator x operand-pair x '
              'whitespace-form products against the documented operator table')
